@@ -27,9 +27,10 @@ func undecidedf(format string, args ...any) {
 }
 
 type Ctx struct {
-	Repo string
-	Tier string
-	Fset *token.FileSet
+	boundsP *boundProver // shared bounds prover for the interprocedural helpers (constLE)
+	Repo    string
+	Tier    string
+	Fset    *token.FileSet
 	// module packages by short name ("eval", "object", ..., "main" for the root package)
 	Pkgs map[string]*packages.Package
 	Mod  []*packages.Package
